@@ -180,3 +180,21 @@ Example ex3_removed_item_mismatch_accepted :
   ex_apply ex3_d ex3_t1 = (ex3_t2, 0) /\
   ex_apply ex3_d ex3_base = (ex3_base, 0).
 Proof. vm_compute. repeat split. Qed.
+
+(* default mode with recorded opcodes: [1,2,3,4] -> [0,1,2,3,5], the opcodes
+   difflib returns; the first pass wins, the value change 4 -> 5 is reported at
+   root[3] with new_path root[4] *)
+Definition ex4_t1 : value := VList [I 1; I 2; I 3; I 4].
+Definition ex4_t2 : value := VList [I 0; I 1; I 2; I 3; I 5].
+Definition ex4_cfg : cfg := mkCfg false 0 1 true.
+Definition ex4_ops (_ : path) (_ _ : list value) : list opcode :=
+  [mkOp OInsert 0 0 0 1; mkOp OEqual 0 3 1 4; mkOp OReplace 3 4 4 5].
+Definition ex4_r := run_diff hatom_simple (fun _ _ => []) ex4_ops no_paths no_paths ex4_cfg ex4_t1 ex4_t2.
+Definition ex4_d : delta := to_delta ex_conv true false ex4_ops ex4_t1 ex4_t2 (fst ex4_r) (snd ex4_r).
+Definition ex4_base : value := VList [I 1; I 2; I 3; I 7].
+
+Example ex4_shape :
+  snd ex4_r = [[]] /\
+  map (fun c => (vc_path c, vc_new_path c)) (d_val ex4_d) = [([PKey (AInt 3)], Some [PKey (AInt 4)])] /\
+  ex_apply ex4_d ex4_t1 = (ex4_t2, 0) /\ ex_sub ex4_d ex4_t2 = Some (ex4_t1, 0).
+Proof. vm_compute. repeat split. Qed.
